@@ -116,8 +116,9 @@ Proof.
   - intros t0 w H. apply (Sinv_stable t w); [exact (g_runs_kview _ _ (kview_despawn _ _))|apply cb_stable_despawn|exact H].
   - intros t0 cb b w H Hcb _. unfold cb_bump. eapply Sinv_cbs_upd; [exact Hcb|reflexivity|reflexivity|exact H].
   - intros t0 tk w H. unfold once_finish. destruct (alookup t0 (cbs w)) as [cb'|] eqn:Ecb; [|exact H].
-    apply (Sinv_stable t (w <| cbs := aupd t0 (mkCb (cb_once cb') (cb_runno cb') (cb_captured cb') true false) (cbs w) |>)); [reflexivity|apply cb_stable_oview; reflexivity|].
-    eapply Sinv_cbs_upd; [exact Ecb|reflexivity|reflexivity|exact H].
+    match goal with |- context [aupd t0 ?r (cbs w)] =>
+      apply (Sinv_stable t (w <| cbs := aupd t0 r (cbs w) |>)); [reflexivity|apply cb_stable_oview; reflexivity|];
+      eapply Sinv_cbs_upd; [exact Ecb|reflexivity|reflexivity|exact H] end.
   - (* the body: logs (r, c) = the stored counters (guard), then increments both *)
     intros sd t0 r c w HG H. unfold body_guard in HG. apply andb_true_iff in HG. destruct HG as [HG _]. apply andb_true_iff in HG. destruct HG as [_ HG].
     unfold state_ok_b in HG. destruct (alookup t0 (cbs w)) as [cb0|] eqn:Ecb; [|discriminate HG].
